@@ -123,3 +123,80 @@ macro_rules! for_each_int_type {
         $f::<i32>($($arg),*); $f::<i64>($($arg),*); $f::<i128>($($arg),*); $f::<isize>($($arg),*);
     };
 }
+
+/// PAIRS: every pair of adjacent digits (a, b) at every position of an all-ones numeral of every
+/// length, and the numerals 123..., ...321 of every length: every entry of the digit-pair tables
+/// at every position the wide-type code paths can reach.
+pub fn pair_values<T: Int>(radix: u32) -> Vec<IVal> {
+    let max = T::TY.max_mag(false);
+    let r = radix as u128;
+    let mut out: Vec<u128> = Vec::new();
+    let mut ones: Vec<u128> = Vec::new(); // ones[l] = 11..1 (l digits)
+    let mut pows: Vec<u128> = vec![1];
+    let mut acc: u128 = 0;
+    loop {
+        ones.push(acc);
+        match acc.checked_mul(r).and_then(|x| x.checked_add(1)) {
+            Some(n) if n <= max => acc = n,
+            _ => break,
+        }
+        match pows.last().unwrap().checked_mul(r) {
+            Some(p) => pows.push(p),
+            None => break,
+        }
+    }
+    for l in 2..ones.len() {
+        let base = ones[l];
+        for pos in 0..l - 1 {
+            // replace digits at pos+1, pos (both 1) by (a, b)
+            let cleared = base - pows[pos] - pows[pos + 1];
+            for a in 0..r {
+                if pos + 2 == l && a == 0 {
+                    continue; // keep the length
+                }
+                for b in 0..r {
+                    if let Some(v) = (a * pows[pos + 1]).checked_add(b * pows[pos]).and_then(|x| x.checked_add(cleared)) {
+                        if v <= max {
+                            out.push(v);
+                        }
+                    }
+                }
+            }
+        }
+    }
+    // ascending / descending digit patterns of every length
+    for l in 1..ones.len() {
+        let (mut up, mut down) = (0u128, 0u128);
+        let mut ok = true;
+        for i in 0..l {
+            let d_up = (i as u128 % (r - 1)) + 1;
+            let d_down = ((l - 1 - i) as u128 % (r - 1)) + 1;
+            match (up.checked_mul(r).and_then(|x| x.checked_add(d_up)), down.checked_mul(r).and_then(|x| x.checked_add(d_down))) {
+                (Some(u), Some(d)) => {
+                    up = u;
+                    down = d;
+                }
+                _ => {
+                    ok = false;
+                    break;
+                }
+            }
+        }
+        if ok {
+            for v in [up, down] {
+                if v <= max {
+                    out.push(v);
+                }
+            }
+        }
+    }
+    out.sort_unstable();
+    out.dedup();
+    let mut res: Vec<IVal> = out.iter().map(|&m| IVal { neg: false, mag: m }).collect();
+    if T::TY.signed {
+        let nmax = T::TY.max_mag(true);
+        res.extend(out.iter().step_by(3).filter(|&&m| m != 0 && m <= nmax).map(|&m| IVal { neg: true, mag: m }));
+    }
+    res
+}
+
